@@ -28,7 +28,7 @@ def norm_name(lhs):
     return re.sub(r"\[(\d+)[lu]*\]", r"[\1]", lhs)
 
 
-def build_and_run(cell, inputs, scratch, out):
+def build_and_run(cell, inputs, scratch, out, light=False):
     src = os.path.join(VERIF, "replay", cell.replay + ".cpp")
     if not os.path.exists(src):
         out.append("replay template %s missing" % src)
@@ -41,6 +41,8 @@ def build_and_run(cell, inputs, scratch, out):
     for flavour, cxx, flags in (("debug+ubsan(clang++)", "clang++", ["-O0", "-g", "-fsanitize=undefined", "-fno-sanitize-recover=all"]),
                                ("debug(g++)", "g++", ["-O0", "-g"]),
                                ("ndebug(g++ -O2)", "g++", ["-O2", "-DNDEBUG"])):
+        if light and not flavour.startswith("debug(g++)"):
+            continue   # after the first few refuted cells of a run only the plain g++ debug build is replayed
         exe = os.path.join(scratch, "replay_%s_%s" % (re.sub(r"\W", "_", cell.id), re.sub(r"\W", "_", flavour)))
         cmd = [cxx, "-std=c++20", "-w", "-I", os.path.join(REPO, "lib/core"), "-I", os.path.join(VERIF, "replay")] + flags + defs + [src, "-o", exe]
         p = subprocess.run(cmd, capture_output=True, text=True)
@@ -72,7 +74,7 @@ def build_and_run(cell, inputs, scratch, out):
     return confirmed
 
 
-def replay_violation(pid, cell, result, failed, path, scratch, all_failed=None):
+def replay_violation(pid, cell, result, failed, path, scratch, all_failed=None, light=False):
     out = []
     out.append("property: %s" % pid)
     out.append("cell: %s" % result["cell"])
@@ -105,7 +107,7 @@ def replay_violation(pid, cell, result, failed, path, scratch, all_failed=None):
         out.append("verifier gave no trace")
     if cell is not None and getattr(cell, "replay", None) and inputs:
         try:
-            confirmed = build_and_run(cell, inputs, scratch, out)
+            confirmed = build_and_run(cell, inputs, scratch, out, light=light)
         except Exception as e:
             out.append("replay machinery failed: %r" % e)
     else:
